@@ -5,6 +5,9 @@ Helper lemmas for the schedule model: the sorted-list queue (`insertE`, `put`, `
 -/
 namespace LdarModel.Sched
 
+set_option linter.unusedSimpArgs false
+set_option linter.unusedVariables false
+
 /-! ### order on entries -/
 
 theorem keyLt_trans {a b c : Entry} (h1 : keyLt a b) (h2 : keyLt b c) : keyLt a c := by
@@ -324,19 +327,23 @@ def finishDay (c : Cfg) (d : DayIn) (s1 : State) : State :=
 
 theorem scheduleDay_eq (c : Cfg) (d : DayIn) (s : State) :
     scheduleDay c d s = finishDay c d (requestPhase c d.date s) := by
-  simp only [scheduleDay, dayTrace, takeN_eq, finishDay, foldl_requeue_eq, planKeys, waiting, deployed]
+  simp only [scheduleDay, dayTrace, takeN_eq, foldl_requeue_eq]
+  rfl
 
 theorem dayTrace_keys (c : Cfg) (d : DayIn) (s : State) :
     (dayTrace c d s).keys = planKeys c (requestPhase c d.date s) := by
-  simp only [dayTrace, takeN_eq, planKeys]
+  simp only [dayTrace, takeN_eq]
+  rfl
 
 theorem dayTrace_afterDeploy (c : Cfg) (d : DayIn) (s : State) :
     (dayTrace c d s).afterDeploy = deployed c d (requestPhase c d.date s) := by
-  simp only [dayTrace, takeN_eq, planKeys, deployed]
+  simp only [dayTrace, takeN_eq]
+  rfl
 
 theorem dayTrace_remaining (c : Cfg) (d : DayIn) (s : State) :
     (dayTrace c d s).remaining = waiting c (requestPhase c d.date s) := by
-  simp only [dayTrace, takeN_eq, waiting]
+  simp only [dayTrace, takeN_eq]
+  rfl
 
 theorem dayTrace_taken (c : Cfg) (d : DayIn) (s : State) :
     (dayTrace c d s).taken =
@@ -454,5 +461,414 @@ theorem inv_scheduleDay (c : Cfg) (hc : c.sites.Nodup) (d : DayIn) (s : State) (
     Inv (scheduleDay c d s) := by
   rw [scheduleDay_eq]
   exact inv_finishDay c d _ (inv_request c hc d.date s h)
+
+/-! ### follow-up operations -/
+
+theorem inv_fuAdd (cls site : Nat) (rate : Int) (s : State) (h : Inv s)
+    (hq : (s.pl site).queued = false) (hc : cls ≠ prioUnfinished) : Inv (fuAdd cls site rate s) := by
+  have hns : site ∉ s.q.sites := by
+    intro hin
+    have := (h.flag site).2 hin
+    rw [hq] at this
+    exact Bool.noConfusion this
+  have hperm := put_perm s.q (effClass cls { queued := true, log := (s.pl site).log, rep := none, rate := rate })
+    rate site
+  have hsites : (s.q.put (effClass cls { queued := true, log := (s.pl site).log, rep := none, rate := rate })
+      rate site).sites.Perm (site :: s.q.sites) := by
+    have := hperm.map (·.site)
+    simpa [Queue.sites] using this
+  unfold fuAdd
+  refine ⟨qwf_put _ h.qwf _ _ _, ?_, ?_, ?_, ?_, ?_⟩
+  · rw [hsites.nodup_iff, List.nodup_cons]; exact ⟨hns, h.nodup⟩
+  · intro i
+    simp only
+    rw [hsites.mem_iff, List.mem_cons]
+    by_cases hi : i = site
+    · simp [hi]
+    · simp [hi, h.flag i]
+  · intro e he
+    simp only
+    have he' := (hperm.mem_iff).1 he
+    rcases List.mem_cons.1 he' with rfl | he'
+    · simp [effClass, inProgress]; exact hc
+    · have hne : e.site ≠ site := by
+        intro heq
+        exact hns ((mem_sites_iff _ _).2 ⟨e, he', heq⟩)
+      simp only [hne, if_false]
+      exact h.cls1 e he'
+  · intro i
+    simp only
+    by_cases hi : i = site
+    · simp [hi, isComplete]
+    · simp only [hi, if_false]; exact h.notComplete i
+  · intro i
+    simp only
+    by_cases hi : i = site
+    · simp [hi]
+    · simp only [hi, if_false]; exact h.idle i
+
+/-- the queue rebuilt by `get_plan_from_queue` -/
+theorem extract_spec (q : Queue) (hq : QWF q) (site : Nat) :
+    QWF (q.extract site).2 ∧ (q.extract site).2.sites.Perm (q.sites.filter (· ≠ site)) ∧
+    (∀ e' ∈ (q.extract site).2.entries, ∃ e ∈ q.entries, e.site ≠ site ∧ e'.cls = e.cls ∧ e'.rate = e.rate
+        ∧ e'.site = e.site) ∧
+    ((q.extract site).1 = none ↔ site ∉ q.sites) := by
+  have hfold : ∀ (l : List Entry) (nq : Queue),
+      l.foldl (fun nq e => nq.put e.cls e.rate e.site) nq = putAll nq (l.map (fun e => (e.cls, e.rate, e.site))) := by
+    intro l
+    induction l with
+    | nil => intro nq; rfl
+    | cons x xs ih => intro nq; simp [putAll, ih]
+  unfold Queue.extract
+  simp only [hfold]
+  have hspec := putAll_spec Queue.empty qwf_empty
+    ((q.entries.filter (fun e => e.site ≠ site)).map (fun e => (e.cls, e.rate, e.site)))
+  have hsites := putAll_sites Queue.empty qwf_empty
+    ((q.entries.filter (fun e => e.site ≠ site)).map (fun e => (e.cls, e.rate, e.site)))
+  refine ⟨hspec.1, ?_, ?_, ?_⟩
+  · refine hsites.trans ?_
+    simp only [Queue.empty, Queue.sites, List.map_nil, List.nil_append, List.map_map, Function.comp_def]
+    rw [List.filter_map]
+    exact List.Perm.refl _
+  · intro e' he'
+    have := (hspec.2.1.mem_iff).1 he'
+    simp only [Queue.empty, List.nil_append] at this
+    have hit := stamp_item _ _ e' this
+    simp only [List.mem_map, List.mem_filter] at hit
+    obtain ⟨e, ⟨hemem, hene⟩, heq⟩ := hit
+    refine ⟨e, hemem, by simpa using hene, ?_, ?_, ?_⟩
+    · injection heq with a b; exact a.symm
+    · injection heq with a b; injection b with b1 b2; exact b1.symm
+    · injection heq with a b; injection b with b1 b2; exact b2.symm
+  · rw [List.getLast?_eq_none_iff, List.filter_eq_nil_iff, mem_sites_iff]
+    constructor
+    · intro hall hex
+      obtain ⟨e, he, hes⟩ := hex
+      have := hall e he
+      simp [hes] at this
+    · intro hnex e he
+      simp only [decide_eq_true_eq]
+      intro hes
+      exact hnex ⟨e, he, hes⟩
+
+theorem inv_fuRedetect (site : Nat) (rate : Int) (cls : Nat) (s : State) (h : Inv s)
+    (hc : cls ≠ prioUnfinished) : Inv (fuRedetect site rate cls s) := by
+  obtain ⟨hqwf, hsites, hent, hnone⟩ := extract_spec s.q h.qwf site
+  have hfnd : (s.q.sites.filter (· ≠ site)).Nodup := h.nodup.sublist List.filter_sublist
+  have hmemf : ∀ i, i ∈ (s.q.extract site).2.sites ↔ (i ∈ s.q.sites ∧ i ≠ site) := by
+    intro i; rw [hsites.mem_iff, List.mem_filter]; simp
+  have hcls : ∀ e' ∈ (s.q.extract site).2.entries,
+      e'.site ≠ site ∧ (e'.cls = prioUnfinished ↔ inProgress (s.pl e'.site) = true) := by
+    intro e' he'
+    obtain ⟨e, he, hne, h1, _, h3⟩ := hent e' he'
+    rw [h1, h3]
+    exact ⟨hne, h.cls1 e he⟩
+  unfold fuRedetect
+  simp only
+  split
+  · rename_i hx
+    have hnin := hnone.1 hx
+    refine ⟨hqwf, ?_, ?_, ?_, h.notComplete, h.idle⟩
+    · rw [hsites.nodup_iff]; exact hfnd
+    · intro i
+      rw [h.flag i, hmemf]
+      constructor
+      · intro hi; exact ⟨hi, fun heq => hnin (heq ▸ hi)⟩
+      · intro hi; exact hi.1
+    · intro e' he'; exact (hcls e' he').2
+  · rename_i t hx
+    have hin : site ∈ s.q.sites := by
+      apply Classical.byContradiction
+      intro hnin
+      rw [hnone.2 hnin] at hx
+      cases hx
+    by_cases hz : cls = 0
+    · simp only [hz, if_true]
+      refine ⟨hqwf, ?_, ?_, ?_, ?_, ?_⟩
+      · rw [hsites.nodup_iff]; exact hfnd
+      · intro i
+        simp only
+        rw [hmemf]
+        by_cases hi : i = site
+        · simp [hi]
+        · simp [hi, h.flag i]
+      · intro e' he'
+        simp only [(hcls e' he').1, if_false]
+        exact (hcls e' he').2
+      · intro i
+        simp only
+        by_cases hi : i = site
+        · simp [hi, isComplete]
+        · simp only [hi, if_false]; exact h.notComplete i
+      · intro i
+        simp only
+        by_cases hi : i = site
+        · simp [hi]
+        · simp only [hi, if_false]; exact h.idle i
+    · simp only [hz, if_false]
+      have hperm := put_perm (s.q.extract site).2 (effClass cls { s.pl site with rate := rate }) rate site
+      have hsites2 : ((s.q.extract site).2.put (effClass cls { s.pl site with rate := rate }) rate site).sites.Perm
+          (site :: (s.q.extract site).2.sites) := by
+        have := hperm.map (·.site)
+        simpa [Queue.sites] using this
+      refine ⟨qwf_put _ hqwf _ _ _, ?_, ?_, ?_, ?_, ?_⟩
+      · rw [hsites2.nodup_iff, List.nodup_cons, hsites.nodup_iff]
+        refine ⟨?_, hfnd⟩
+        rw [hmemf]; simp
+      · intro i
+        simp only
+        rw [hsites2.mem_iff, List.mem_cons, hmemf]
+        by_cases hi : i = site
+        · simp [hi, (h.flag site).2 hin]
+        · simp [hi, h.flag i]
+      · intro e he
+        simp only
+        have he' := (hperm.mem_iff).1 he
+        rcases List.mem_cons.1 he' with rfl | he'
+        · simp only [if_true, effClass]
+          have hip : inProgress { s.pl site with rate := rate } = inProgress (s.pl site) := rfl
+          rw [hip]
+          cases hrp : inProgress (s.pl site)
+          · simp; exact hc
+          · simp
+        · simp only [(hcls e he').1, if_false]
+          exact (hcls e he').2
+      · intro i
+        simp only
+        by_cases hi : i = site
+        · have := h.notComplete site
+          simp only [hi, if_true]
+          unfold isComplete at *
+          exact this
+        · simp only [hi, if_false]; exact h.notComplete i
+      · intro i
+        simp only
+        by_cases hi : i = site
+        · simp [hi, (h.flag site).2 hin]
+        · simp only [hi, if_false]; exact h.idle i
+
+/-! ### histories -/
+
+/-- what the callers of the follow-up schedule guarantee: a site is flagged for the first time only
+while it has no outstanding follow-up (one shared flag dictionary), the classes handed in are the
+ones the code uses (2, 3; 0 = dropped) -/
+def OpOK (s : State) : Op → Prop
+  | .day _ => True
+  | .add cls site _ => (s.pl site).queued = false ∧ (cls = prioUnattended ∨ cls = prioNew)
+  | .redetect _ _ cls => cls = 0 ∨ cls = prioUnattended ∨ cls = prioNew
+
+def RunOK (c : Cfg) : State → List Op → Prop
+  | _, [] => True
+  | s, o :: os => OpOK s o ∧ RunOK c (step c s o) os
+
+instance (s : State) (o : Op) : Decidable (OpOK s o) := by
+  cases o <;> unfold OpOK <;> infer_instance
+
+instance decRunOK (c : Cfg) : (s : State) → (ops : List Op) → Decidable (RunOK c s ops)
+  | _, [] => isTrue trivial
+  | s, o :: os => by
+    unfold RunOK
+    exact @instDecidableAnd _ _ inferInstance (decRunOK c (step c s o) os)
+
+theorem inv_step (c : Cfg) (hc : c.sites.Nodup) (s : State) (h : Inv s) (o : Op) (ho : OpOK s o) :
+    Inv (step c s o) := by
+  cases o with
+  | day d => exact inv_scheduleDay c hc d s h
+  | add cls site rate =>
+    apply inv_fuAdd cls site rate s h ho.1
+    rcases ho.2 with h2 | h2 <;> simp [h2, prioUnattended, prioNew, prioUnfinished]
+  | redetect site rate cls =>
+    apply inv_fuRedetect site rate cls s h
+    rcases ho with h2 | h2 | h2 <;> simp [h2, prioUnattended, prioNew, prioUnfinished]
+
+theorem inv_foldl (c : Cfg) (hc : c.sites.Nodup) (ops : List Op) (s : State) (h : Inv s)
+    (hok : RunOK c s ops) : Inv (ops.foldl (step c) s) := by
+  induction ops generalizing s with
+  | nil => exact h
+  | cons o os ih => exact ih _ (inv_step c hc s h o hok.1) hok.2
+
+theorem inv_run (c : Cfg) (hc : c.sites.Nodup) (ops : List Op) (hok : RunOK c init ops) :
+    Inv (run c ops) := inv_foldl c hc ops init inv_init hok
+
+theorem inv_runDays (c : Cfg) (hc : c.sites.Nodup) (ds : List DayIn) : Inv (runDays c ds) := by
+  unfold runDays
+  have : ∀ s, Inv s → Inv (ds.foldl (fun s d => scheduleDay c d s) s) := by
+    induction ds with
+    | nil => intro s h; exact h
+    | cons d ds ih => intro s h; exact ih _ (inv_scheduleDay c hc d s h)
+  exact this init inv_init
+
+/-! ### routine / stationary schedules: the class tells the whole state of the request -/
+
+/-- entries of a routine queue: bare class (rate 0), class 3 exactly for requests that never were in
+a work plan (no report yet), classes 1..3 only -/
+def RInv (s : State) : Prop :=
+  ∀ e ∈ s.q.entries, e.rate = 0 ∧ (e.cls = prioNew ↔ (s.pl e.site).rep = none) ∧
+    (e.cls = prioUnfinished ∨ e.cls = prioUnattended ∨ e.cls = prioNew)
+
+theorem rinv_init : RInv init := by simp [RInv, init]
+
+theorem applyOutcome_rep_some (p : PlannerP) (o : Outcome) (s : PlannerS) :
+    (applyOutcome p o s).rep ≠ none := by
+  unfold applyOutcome; cases o <;> simp
+
+theorem rinv_request (c : Cfg) (dt : Date) (s : State) (h : Inv s) (hr : RInv s) :
+    RInv (requestPhase c dt s) := by
+  have hnq := issued_not_queued c dt s
+  have hspec := putAll_spec s.q h.qwf ((issued c dt s).map (fun i => (prioNew, (0 : Int), i)))
+  unfold RInv requestPhase
+  simp only [foldl_issue_eq]
+  intro e he
+  have he' := (hspec.2.1.mem_iff).1 he
+  rw [List.mem_append] at he'
+  have hrep : ∀ j, (if j ∈ issued c dt s then { s.pl j with queued := true } else s.pl j).rep = (s.pl j).rep := by
+    intro j; by_cases hj : j ∈ issued c dt s <;> simp [hj]
+  rw [hrep]
+  rcases he' with he' | he'
+  · exact hr e he'
+  · have hit := stamp_item _ _ e he'
+    simp only [List.mem_map] at hit
+    obtain ⟨i, hi, hieq⟩ := hit
+    have h1 : e.cls = prioNew := by injection hieq with a b; exact a.symm
+    have h2 : e.site = i := by injection hieq with a b; injection b with b1 b2; exact b2.symm
+    have h3 : e.rate = 0 := by injection hieq with a b; injection b with b1 b2; exact b1.symm
+    have hrn := h.idle i (hnq i hi)
+    rw [h2, hrn]
+    simp [h1, h3]
+
+theorem rinv_finishDay (c : Cfg) (hk : c.kind ≠ .followup) (d : DayIn) (s1 : State) (h : Inv s1)
+    (hr : RInv s1) : RInv (finishDay c d s1) := by
+  have hsplit := sites_split c s1 h
+  have hnd := h.nodup
+  rw [hsplit, List.nodup_append] at hnd
+  have hw : QWF (waiting c s1) := qwf_drop s1.q h.qwf _
+  have hspec := putAll_spec (waiting c s1) hw (requeueItems c.kind (deployed c d s1) (planKeys c s1))
+  unfold RInv finishDay
+  intro e he
+  simp only at he ⊢
+  have he' := (hspec.2.1.mem_iff).1 he
+  rw [List.mem_append] at he'
+  rcases he' with he' | he'
+  · have hes : e.site ∈ (waiting c s1).sites := (mem_sites_iff _ _).2 ⟨e, he', rfl⟩
+    have hnk : e.site ∉ planKeys c s1 := fun hk => hnd.2.2 _ hk _ hes rfl
+    simp only [hnk, false_and, if_false, deployed]
+    exact hr e (List.mem_of_mem_drop he')
+  · have hit := stamp_item _ _ e he'
+    unfold requeueItems at hit
+    simp only [List.mem_map, List.mem_filter] at hit
+    obtain ⟨i, ⟨hik, hinc⟩, hieq⟩ := hit
+    have h1 : e.cls = requeueClass (deployed c d s1 i) := by injection hieq with a b; exact a.symm
+    have h2 : e.site = i := by injection hieq with a b; injection b with b1 b2; exact b2.symm
+    have h3 : e.rate = rateOf c.kind (deployed c d s1 i) := by
+      injection hieq with a b; injection b with b1 b2; exact b1.symm
+    have hinc' : isComplete (deployed c d s1 i) = false := by simpa using hinc
+    have hsome : (deployed c d s1 i).rep ≠ none := by
+      unfold deployed; simp only [hik, if_true]; exact applyOutcome_rep_some _ _ _
+    rw [h1, h2, h3]
+    simp only [hik, hinc', true_and, Bool.false_eq_true, if_false]
+    refine ⟨?_, ?_, ?_⟩
+    · unfold rateOf; cases hkk : c.kind <;> simp_all
+    · unfold requeueClass
+      cases hip : inProgress (deployed c d s1 i) <;> simp [prioUnfinished, prioUnattended, prioNew, hsome]
+    · unfold requeueClass
+      cases hip : inProgress (deployed c d s1 i) <;> simp
+
+theorem rinv_runDays (c : Cfg) (hc : c.sites.Nodup) (hk : c.kind ≠ .followup) (ds : List DayIn) :
+    Inv (runDays c ds) ∧ RInv (runDays c ds) := by
+  unfold runDays
+  have : ∀ s, Inv s ∧ RInv s →
+      Inv (ds.foldl (fun s d => scheduleDay c d s) s) ∧ RInv (ds.foldl (fun s d => scheduleDay c d s) s) := by
+    induction ds with
+    | nil => intro s h; exact h
+    | cons d ds ih =>
+      intro s h
+      apply ih
+      refine ⟨inv_scheduleDay c hc d s h.1, ?_⟩
+      show RInv (scheduleDay c d s)
+      rw [scheduleDay_eq]
+      exact rinv_finishDay c hk d _ (inv_request c hc d.date s h.1) (rinv_request c d.date s h.1 h.2)
+  exact this init ⟨inv_init, rinv_init⟩
+
+/-! ### classes are 1, 2 or 3 for every history -/
+
+def ClsPos (s : State) : Prop := ∀ e ∈ s.q.entries, 1 ≤ e.cls
+
+theorem clspos_init : ClsPos init := by simp [ClsPos, init]
+
+theorem clspos_putAll (q : Queue) (hq : QWF q) (items : List (Nat × Int × Nat))
+    (h : ∀ e ∈ q.entries, 1 ≤ e.cls) (hi : ∀ x ∈ items, 1 ≤ x.1) :
+    ∀ e ∈ (putAll q items).entries, 1 ≤ e.cls := by
+  intro e he
+  have he' := ((putAll_spec q hq items).2.1.mem_iff).1 he
+  rcases List.mem_append.1 he' with he' | he'
+  · exact h e he'
+  · exact hi _ (stamp_item _ _ e he')
+
+theorem clspos_scheduleDay (c : Cfg) (hc : c.sites.Nodup) (d : DayIn) (s : State) (h : Inv s)
+    (hp : ClsPos s) :
+    ClsPos (scheduleDay c d s) := by
+  rw [scheduleDay_eq]
+  have h1 : ClsPos (requestPhase c d.date s) := by
+    unfold ClsPos requestPhase
+    simp only [foldl_issue_eq]
+    apply clspos_putAll s.q h.qwf _ hp
+    intro x hx
+    simp only [List.mem_map] at hx
+    obtain ⟨i, _, rfl⟩ := hx
+    simp [prioNew]
+  unfold ClsPos finishDay
+  simp only
+  have hw : QWF (waiting c (requestPhase c d.date s)) := qwf_drop _ (inv_request c hc d.date s h).qwf _
+  apply clspos_putAll _ hw
+  · intro e he; exact h1 e (List.mem_of_mem_drop he)
+  · intro x hx
+    unfold requeueItems at hx
+    simp only [List.mem_map] at hx
+    obtain ⟨i, _, rfl⟩ := hx
+    simp only [requeueClass]
+    split <;> simp [prioUnfinished, prioUnattended]
+
+theorem clspos_step (c : Cfg) (hc : c.sites.Nodup) (s : State) (h : Inv s) (hp : ClsPos s) (o : Op)
+    (ho : OpOK s o) : ClsPos (step c s o) := by
+  cases o with
+  | day d => exact clspos_scheduleDay c hc d s h hp
+  | add cls site rate =>
+    unfold ClsPos
+    intro e he
+    simp only [step, fuAdd] at he
+    rcases List.mem_cons.1 ((put_perm _ _ _ _).mem_iff.1 he) with rfl | he'
+    · simp only [effClass]
+      rcases ho.2 with h2 | h2 <;> split <;> simp [h2, prioUnfinished, prioUnattended, prioNew]
+    · exact hp e he'
+  | redetect site rate cls =>
+    obtain ⟨_, _, hent, _⟩ := extract_spec s.q h.qwf site
+    have hold : ∀ e' ∈ (s.q.extract site).2.entries, 1 ≤ e'.cls := by
+      intro e' he'
+      obtain ⟨e, he, _, h1, _, _⟩ := hent e' he'
+      rw [h1]; exact hp e he
+    unfold ClsPos
+    intro e he
+    simp only [step, fuRedetect] at he
+    split at he
+    · exact hold e he
+    · split at he
+      · exact hold e he
+      · rename_i hz
+        rcases List.mem_cons.1 ((put_perm _ _ _ _).mem_iff.1 he) with rfl | he'
+        · simp only [effClass]
+          rcases ho with h2 | h2 | h2
+          · exact absurd h2 hz
+          · split <;> simp [h2, prioUnfinished, prioUnattended]
+          · split <;> simp [h2, prioUnfinished, prioNew]
+        · exact hold e he'
+
+theorem inv_clspos_foldl (c : Cfg) (hc : c.sites.Nodup) (ops : List Op) (s : State) (h : Inv s)
+    (hp : ClsPos s) (hok : RunOK c s ops) : ClsPos (ops.foldl (step c) s) := by
+  induction ops generalizing s with
+  | nil => exact hp
+  | cons o os ih => exact ih _ (inv_step c hc s h o hok.1) (clspos_step c hc s h hp o hok.1) hok.2
+
+theorem clspos_run (c : Cfg) (hc : c.sites.Nodup) (ops : List Op) (hok : RunOK c init ops) :
+    ClsPos (run c ops) := inv_clspos_foldl c hc ops init inv_init clspos_init hok
 
 end LdarModel.Sched
